@@ -11,6 +11,7 @@ import PV.Model.StructDead
 import PV.Model.Decisions
 import PV.Model.Registry
 import PV.Model.LCOM
+import PV.Model.CBO
 /-!
 Line-protocol driver: runs the executable models on the cases the harness also ran on the
 implementation.  Core-only imports (links as a native executable).
@@ -302,6 +303,14 @@ def runLcom (t : Array String) : String :=
   | some k, some gs => s!"{k}|{showGroups gs}"
   | _, _ => "fuel-exhausted"
 
+/-- `cbo <excluded ids a,b|-> <mentions a,b,c|->` → `count|deps` -/
+def runCbo (t : Array String) : String :=
+  if t.size < 2 then "bad-op" else
+  let ex := natList t[0]!
+  let ms := natList t[1]!
+  let d := PV.CBO.deps (fun n => ex.contains n) ms
+  s!"{d.length}|{joinWith "," (d.map toString)}"
+
 def step (line : String) : String :=
   let parts := (line.splitOn " ").filter (· ≠ "")
   match parts with
@@ -321,6 +330,7 @@ def step (line : String) : String :=
     | "mccabe" => runMccabe t
     | "reg" => runReg t
     | "lcom" => runLcom t
+    | "cbo" => runCbo t
     | _ => "bad-op"
 
 partial def loop (h : IO.FS.Stream) (out : IO.FS.Stream) : IO Unit := do
